@@ -43,13 +43,19 @@ type IgnoreErrors struct {
 // Call the function with the arguments provided.
 func (f *IgnoreErrors) Call(s *slip.Scope, args slip.List, depth int) (result slip.Object) {
 	defer func() {
-		if rec := recover(); rec != nil {
-			if p, ok := rec.(*slip.Panic); ok {
-				result = slip.Values{nil, p}
-				if p.Condition != nil {
-					result = slip.Values{nil, p.Condition}
-				}
+		switch p := recover().(type) {
+		case nil:
+		case *slip.Panic:
+			result = slip.Values{nil, p}
+			if p.Condition != nil {
+				result = slip.Values{nil, p.Condition}
 			}
+		case slip.Object:
+			// A condition signalled by a form that is not a function call,
+			// a variable without a value for one.
+			result = slip.Values{nil, p}
+		default:
+			result = slip.Values{nil, slip.ErrorNew(s, depth, "%s", p)}
 		}
 	}()
 	d2 := depth + 1
